@@ -525,3 +525,6 @@ func kitCookieHeaders(cfg *oidcv1.OIDCConfig, value string) map[string]string {
 	}
 	return map[string]string{"cookie": name + "=" + value + ";" + vn.StringIn("other-cookie", 3, alphaLower+"= ")}
 }
+
+func newCheckResponse() *envoy.CheckResponse { return &envoy.CheckResponse{} }
+func ctxBackground() context.Context        { return context.Background() }
